@@ -356,16 +356,28 @@ def r6(ctx, cfg):
     f = ctx.need_fn(R, key)
     if f is not None:
         # key = b"wasm\0" ++ code_id.to_be_bytes() ++ instance_id.to_be_bytes()
-        l = None
-        for fl, nm in f.names.items():
-            if nm == "key":
-                l = fl
-        vb = q.vec_build(P, f, l) if l is not None else None
-        ok = vb is not None and len(vb[1]) == 3
+        # the hashed key: the Vec that receives extend_from_slice calls (however they are written: three calls, a loop
+        # over the three parts, concat)
+        from vlib import pipeline
+        cands = []
+        for l2 in range(1, len(f.locals)):
+            if f.locals[l2]["s"].startswith("std::vec::Vec<u8") and P.mutations(f, l2):
+                cands.append(l2)
+        parts = None
+        for l2 in cands:
+            ds = [d0 for d0 in P.defs(f).get(l2, []) if not d0[3]["dst"]["p"]]
+            if len(ds) != 1:
+                continue
+            site = (ds[0][1], "t") if ds[0][0] == "call" else (ds[0][1], ds[0][2])
+            last = max((b0 for b0, t0, ai in P.mutations(f, l2)), default=None)
+            o2 = P.local(f, l2, (f.order[-1], "t")) if last is None else P.local(f, l2, (cfg_of(f).after_call_node(last) or last, 0))
+            parts = pipeline.byte_parts(P, F, f, P.local(f, l2))
+            if parts is not None and len(parts) == 3:
+                break
+        ok = parts is not None and len(parts) == 3
         d = "?"
         if ok:
-            init, muts = vb
-            a0, a1, a2 = [peel(m[3][0]) for m in muts]
+            a0, a1, a2 = [peel(x) for x in parts]
             d = "[%s, %s, %s]" % (fmt(a0)[:30], fmt(a1)[:40], fmt(a2)[:40])
             ok = a0[0] == "const" and a0[2] == "wasm\x00" and a1[0] == "call" and a1[1].endswith("to_be_bytes") and is_param(a1[2][0], "code_id") and \
                 a2[0] == "call" and a2[1].endswith("to_be_bytes") and is_param(a2[2][0], "instance_id")
@@ -424,6 +436,13 @@ def r7(ctx, cfg):
         chain = []
         if ok:
             o = peel(ret[2][0])
+            # `x.unwrap_or(&0)` / `match x { Some(v) => v, None => 0 }`: alternatives {0, some(x)}
+            al = [peel(x) for x in alts(o)]
+            if len(al) == 2 and any(x == ("const", "int", 0) for x in al):
+                o = [x for x in al if x != ("const", "int", 0)][0]
+                if o[0] == "some":
+                    o = peel(o[1])
+                chain.append("unwrap_or")
             while o[0] == "call":
                 name = o[1].rsplit("::", 1)[1]
                 chain.append(name)
